@@ -260,10 +260,10 @@ def run(ctx: Ctx) -> None:
         # R2: exhaustive sequences over the full alphabet, from the spec graph
         depth = 2 if ctx.quick else 3
         seqs = sequences_from_graph(graph, depth)
-        if not ctx.quick and len(seqs) > 30000:
+        if not ctx.quick and len(seqs) > 12000:
             rng.shuffle(seqs)
-            ctx.note(f"depth-{depth} sequences: {len(seqs)} in the spec graph, 30000 sampled")
-            seqs = seqs[:30000]
+            ctx.note(f"depth-{depth} sequences: {len(seqs)} in the spec graph, 12000 sampled")
+            seqs = seqs[:12000]
             ex = False
         else:
             ex = True
